@@ -173,6 +173,7 @@ type childResult struct {
 	Opens       int            `json:"opens"`
 	SessionOps  int            `json:"session_ops"`
 	RefreshTick bool           `json:"refresh_tick_seen"`
+	Rpc         map[string]int `json:"rpc"`
 	Busy        []string       `json:"busy_conns"`
 	BusyBefore  int            `json:"busy_before"`
 	DrvOpened   int64          `json:"drv_opened"`
@@ -210,6 +211,8 @@ func (c *coord) sendSync(_ *sgetty.GettyRemotingClient, msg interface{}) (interf
 		return message.BranchRegisterResponse{AbstractTransactionResponse: ok, BranchId: id}, nil
 	case message.BranchReportRequest:
 		return message.BranchReportResponse{AbstractTransactionResponse: ok}, nil
+	case message.RegisterTMRequest:
+		return message.RegisterTMResponse{AbstractIdentifyResponse: message.AbstractIdentifyResponse{AbstractResultMessage: ok.AbstractResultMessage, Identified: true}}, nil
 	case message.RegisterRMRequest:
 		return message.RegisterRMResponse{AbstractIdentifyResponse: message.AbstractIdentifyResponse{AbstractResultMessage: ok.AbstractResultMessage, Identified: true}}, nil
 	case message.GlobalLockQueryRequest:
@@ -227,6 +230,54 @@ func (c *coord) takeBranch() (message.BranchCommitRequest, bool) {
 	b := c.branches[len(c.branches)-1]
 	c.branches = c.branches[:len(c.branches)-1]
 	return b, true
+}
+
+// ---- a session whose peer is the coordinator stub: the REAL remoting layer of the client (id
+// generator, pending-future table, SendSync/sendAsync, response processors) runs on top of it.
+// A share of the requests is answered from INSIDE WritePkg (the reply is processed before
+// WritePkg returns to the sender), the rest from another goroutine.
+type coordSession struct {
+	getty.Session
+	co      *coord
+	closed  int32
+	inline  int64
+	async   int64
+	unknown int64
+}
+
+func (s *coordSession) IsClosed() bool                        { return atomic.LoadInt32(&s.closed) == 1 }
+func (s *coordSession) RemoteAddr() string                    { return "127.0.0.1:8091" }
+func (s *coordSession) LocalAddr() string                     { return "127.0.0.1:40001" }
+func (s *coordSession) Stat() string                          { return "coordinator-stub session" }
+func (s *coordSession) Close()                                { atomic.StoreInt32(&s.closed, 1) }
+func (s *coordSession) GetAttribute(interface{}) interface{}  { return nil }
+func (s *coordSession) SetAttribute(interface{}, interface{}) {}
+func (s *coordSession) RemoveAttribute(interface{})           {}
+func (s *coordSession) ID() uint32                            { return 7 }
+func (s *coordSession) GetActive() time.Time                  { return time.Now() }
+func (s *coordSession) WritePkg(pkg interface{}, _ time.Duration) (int, int, error) {
+	m, ok := pkg.(message.RpcMessage)
+	if !ok {
+		return 0, 0, fmt.Errorf("coordinator stub: not an RpcMessage: %T", pkg)
+	}
+	if m.Type != message.GettyRequestTypeRequestSync {
+		return 1, 1, nil
+	}
+	resp, err := s.co.sendSync(nil, m.Body)
+	if err != nil {
+		atomic.AddInt64(&s.unknown, 1)
+		return 1, 1, nil
+	}
+	reply := message.RpcMessage{ID: m.ID, Type: message.GettyRequestTypeResponse, Codec: m.Codec, Compressor: m.Compressor, Body: resp}
+	h := sgetty.GetGettyClientHandlerInstance()
+	if m.ID%3 == 0 {
+		atomic.AddInt64(&s.inline, 1)
+		h.OnMessage(s, reply) // the coordinator was faster than the sender's return from WritePkg
+	} else {
+		atomic.AddInt64(&s.async, 1)
+		go h.OnMessage(s, reply)
+	}
+	return 1, 1, nil
 }
 
 // ---- fake sessions for load-balance selection
@@ -445,12 +496,16 @@ func (e *env) unitAt(ctx context.Context, commit bool, stmts int, id int64) erro
 }
 
 // phase2 delivers one pending phase-two request through the real client handler
-func (e *env) phase2(commit bool) bool {
+func (e *env) phase2(commit bool) bool { return e.phase2n(commit, 1) }
+
+// phase2n delivers the phase-two request of one pending branch `times` times (the coordinator
+// repeats a request whose answer it did not see: duplicate / retried deliveries)
+func (e *env) phase2n(commit bool, times int) bool {
 	b, ok := e.co.takeBranch()
 	if !ok {
 		return false
 	}
-	atomic.AddInt64(&e.p2sent, 1)
+	atomic.AddInt64(&e.p2sent, int64(times))
 	if os.Getenv("STRESS_DEBUG") != "" {
 		fmt.Fprintf(os.Stderr, "PHASE2 commit=%v type=%v res=%s\n", commit, b.BranchType, b.ResourceId)
 	}
@@ -458,7 +513,9 @@ func (e *env) phase2(commit bool) bool {
 	if !commit {
 		body = message.BranchRollbackRequest{AbstractBranchEndRequest: b.AbstractBranchEndRequest}
 	}
-	sgetty.GetGettyClientHandlerInstance().OnMessage(nil, message.RpcMessage{ID: int32(b.BranchId), Body: body})
+	for i := 0; i < times; i++ {
+		sgetty.GetGettyClientHandlerInstance().OnMessage(nil, message.RpcMessage{ID: int32(b.BranchId), Body: body})
+	}
 	return true
 }
 
@@ -625,6 +682,54 @@ func child(args map[string]string) {
 	rng := hutil.NewRng(seed)
 
 	e := &env{maxTarget: hutil.ArgInt(args, "maxtarget", 4), co: &coord{}, drv: &fakeDriver{}, lbTypes: []string{"RandomLoadBalance", "XID", "ConsistentHashLoadBalance", "LeastActiveLoadBalance", "RoundRobinLoadBalance"}}
+	client.InitPath(filepath.Join(repo, "testdata/conf/seatago.yml"))
+
+	// ---- remoting phase: global transactions through the REAL remoting layer over a session whose
+	// peer answers at once (a third of the replies from inside WritePkg).  Every transaction must end
+	// well below the 20 s RPC timeout; the watchdog turns a sender that waits for a reply it lost
+	// into a lock-up report.
+	rpcSecs := hutil.ArgInt(args, "rpcsecs", 2)
+	cs := &coordSession{co: e.co}
+	h := sgetty.GetGettyClientHandlerInstance()
+	_ = h.OnOpen(cs)
+	res.Rpc = map[string]int{}
+	var rmu sync.Mutex
+	res.watched(args["out"], "remoting phase (global transactions through the real getty client; bound 10 s)", time.Duration(rpcSecs)*time.Second+10*time.Second, &rmu, func() {
+		var wg sync.WaitGroup
+		until := time.Now().Add(time.Duration(rpcSecs) * time.Second)
+		for w := 0; w < 8; w++ {
+			wg.Add(1)
+			r := rng.Fork(uint64(5000 + w))
+			go func() {
+				defer wg.Done()
+				for time.Now().Before(until) {
+					t0 := time.Now()
+					cls, det := guard(func() error { return e.unitTm(context.Background(), r.Chance(2, 3)) })
+					d := time.Since(t0)
+					rmu.Lock()
+					res.Rpc["tx_"+cls]++
+					if ms := int(d.Milliseconds()); ms > res.Rpc["max_ms"] {
+						res.Rpc["max_ms"] = ms
+					}
+					if cls != "ok" {
+						count := res.Errors
+						count["rpc: "+trim(det)]++
+					}
+					if d > 5*time.Second {
+						res.Stuck = append(res.Stuck, fmt.Sprintf("a global transaction through the real remoting layer took %v (bound 5 s)", d))
+					}
+					rmu.Unlock()
+				}
+			}()
+		}
+		wg.Wait()
+	})
+	res.Rpc["replies_from_inside_WritePkg"] = int(atomic.LoadInt64(&cs.inline))
+	res.Rpc["replies_async"] = int(atomic.LoadInt64(&cs.async))
+	res.Rpc["requests_not_understood"] = int(atomic.LoadInt64(&cs.unknown))
+	h.OnClose(cs)
+
+	// ---- from here on the coordinator is the stub patched over the remoting client
 	cl := sgetty.GetGettyRemotingClient()
 	p := gomonkey.ApplyMethod(reflect.TypeOf(cl), "SendSyncRequest", e.co.sendSync)
 	p.ApplyMethod(reflect.TypeOf(cl), "SendAsyncRequest", func(_ *sgetty.GettyRemotingClient, msg interface{}) error { return nil })
@@ -634,7 +739,6 @@ func child(args map[string]string) {
 	})
 	defer p.Reset()
 
-	client.InitPath(filepath.Join(repo, "testdata/conf/seatago.yml"))
 	sqlproxy.RegisterVerifDrivers("seata-at-verif-stress", "", e.drv)
 	sql.Register("verif-stress-plain", e.drv)
 
@@ -698,6 +802,15 @@ func child(args map[string]string) {
 				return err
 			}
 			e.phase2(false)
+			return nil
+		}},
+		{"at_phase2_dup", "rollback", 0, 0, func(i int) error {
+			// the same BranchRollback delivered three times: the first finds no undo log and leaves the
+			// marker row, the repeats find the marker
+			if err := e.unitAt(ctx, true, 1, int64(i+1)); err != nil {
+				return err
+			}
+			e.phase2n(false, 3)
 			return nil
 		}},
 		{"select", "commit", 0, 0, func(i int) error { return e.unitSelect(rng) }},
@@ -803,7 +916,7 @@ func child(args map[string]string) {
 				case 9:
 					runUnit(w, "meta", func() error { return e.unitMeta(ctx, r, fmt.Sprintf("t_%d", r.Intn(6))) })
 				case 10:
-					runUnit(w, "phase2", func() error { e.phase2(commit); return nil })
+					runUnit(w, "phase2", func() error { e.phase2n(commit, 1+r.Intn(3)); return nil })
 				default:
 					runUnit(w, "hooks", func() error {
 						// the registration API that takes the hook lock, used while transactions run
